@@ -433,7 +433,7 @@ def run(ctx):
     vtime.install()
     configs = [(ha, order, ini) for ha in (True, False) for order in ("host_first", "equipment_first", "simultaneous")
                for ini in ("ATTEMPT_ONLINE", "ONLINE", "HOST_OFFLINE", "EQUIPMENT_OFFLINE")]
-    reps = 6 if ctx.quick else 60
+    reps = 6 if ctx.quick else 200
     idx = 0
     for rep in range(reps):
         for cfg in configs:
